@@ -82,6 +82,7 @@ def run(ck, fb):
     r16h(ck, fb)
     r16i(ck, fb)
     r16j(ck, fb)
+    r16k(ck, fb)
     r16e(ck, fb)
 
 
@@ -934,3 +935,70 @@ def r16j(ck, fb, R='R16j'):
                    'whether the configured cluster token is used depends on its length (%s): a token the operator set is silently dropped, and with '
                    'an empty cluster token the cluster check is skipped altogether' % (dec[0][2] if dec else ''), 'taken as configured')
     ck.floor(R, 'AppSysConfig built from the environment', n, 1)
+
+
+def r16k(ck, fb, R='R16k'):
+    ck.rule(R, '"a wrong token is treated as no token" for the cluster token: RequestMeta.cluster_token_is_valid is only ever assigned the result of '
+               'comparing the WHOLE presented header value with the WHOLE configured token - a std equality (str / String / slice PartialEq) one of whose '
+               'operands is AppSysConfig.cluster_token, or a helper that contains such an equality or compares the two lengths (a constant-time loop over '
+               'zipped bytes without a length test accepts the empty string and every prefix of the token). Literal false is allowed')
+    from rn.facts import op_const
+    n = 0
+    for b in fb.bodies.values():
+        if not b.name.startswith('rnacos::') or '::tests::' in b.name:
+            continue
+        for (o, f, bb, st) in b.field_writes():
+            if f != 'cluster_token_is_valid':
+                continue
+            n += 1
+            ck.analysed(b)
+            rv = st['rv']
+            op = rv.get('op') if rv['k'] == 'use' else None
+            key = '%s:cluster_token_is_valid' % b.name.split('::')[-1]
+            if op is None:
+                ck.bad(R, key, b.where(bb), 'cluster_token_is_valid is computed by %s, not taken from an equality' % rv['k'])
+                continue
+            c = op_const(op)
+            if c is not None:
+                ck.require(c.get('v') in (False, 0, 'false'), R, key, b.where(bb), 'cluster_token_is_valid is set to a literal that is not false')
+                continue
+            d = cfg.describe_operand(b, op)
+            neg = False
+            while d['k'] == 'un' and d['op'] == 'Not':
+                neg = not neg
+                d = cfg.describe_operand(b, d['a'])
+            if d['k'] != 'call':
+                ck.bad(R, key, b.where(bb), 'cluster_token_is_valid does not come from a comparison (%s)' % cfg.fmt_desc(d))
+                continue
+            name = cfg.callee_name(d['term']) or ''
+            args = d['term']['args']
+            tok = any('cluster_token' in (cfg.origin_fields(b, a) or []) for a in args)
+            whole = False
+            how = name
+            if re.search(r'PartialEq.*::(eq|ne)$|::(eq|ne)$', name) and name.startswith(('std::', 'core::', 'alloc::', '<')):
+                whole = (name.endswith('::eq') and not neg) or (name.endswith('::ne') and neg)
+            elif re.search(r'(ct_eq|constant_time_eq|verify_slices_are_equal)$', name):
+                whole = not neg
+            elif name in fb.bodies:
+                h = fb.bodies[name]
+                for x in util.region(fb, h):
+                    ck.analysed(x)
+                    if x.calls(r'PartialEq.*::(eq|ne)$|(ct_eq|constant_time_eq)$'):
+                        whole = True
+                    for (i2, j2, st2) in x.stmts():
+                        r2 = st2.get('rv')
+                        if r2 and r2['k'] == 'bin' and r2['op'] in ('Eq', 'Ne'):
+                            da = cfg.strip_calls(x, cfg.describe_operand(x, r2['a']))
+                            db = cfg.strip_calls(x, cfg.describe_operand(x, r2['b']))
+                            def is_len(dd):
+                                return (dd['k'] == 'call' and re.search(r'::len$', cfg.callee_name(dd['term']) or '')) or \
+                                       (dd['k'] == 'un' and dd.get('op') == 'PtrMetadata') or dd['k'] == 'len'
+                            if is_len(da) and is_len(db):
+                                whole = True
+                whole = whole and not neg
+                how = 'helper %s' % name
+            ck.require(whole and tok, R, key, b.where(bb),
+                       'cluster_token_is_valid is the answer of %s, which is not an equality of the whole presented value with the whole configured cluster '
+                       'token (operand from AppSysConfig.cluster_token: %s): an empty or truncated ClusterToken header passes as the cluster token' % (how, tok),
+                       'whole-value equality with the configured token')
+    ck.floor(R, 'assignments of cluster_token_is_valid', n, 1)
